@@ -30,7 +30,8 @@ GROUPS = {
     'C08': ['sessionCheckWritable', 'sessionWrite', 'sessionSendClosing', 'wsOnDisconnect', 'wsOnClose', 'closeFromPayload'],
     'C12': ['sessionCheckWritable', 'sessionWrite', 'wsOnDisconnect', 'wsOnClose'],
     'C03': ['frameBuildMaskBit', 'frameBuildByte0', 'frameBuildHeader', 'frameBuildClosePayload',
-            'wsSendPingGuard', 'wsSendPongGuard', 'wsClose'],
+            'wsSendPingGuard', 'wsSendPongGuard', 'wsClose',
+            'sessionSendCompressedFrame', 'frameToBytes', 'frameMakeMaskingKey', 'frameBuildKey', 'wsSendJson'],
     'C04': ['frameIsControl', 'opcodeIsReserved', 'frameValidateReservedBits', 'compressedFrameValidateReservedBits',
             'frameValidate', 'compressedFrameValidate', 'parseFields', 'parseLenExt', 'parseTooLarge',
             'parseChecksFrame', 'parseChecksCompressed', 'clientOnFrameGuard'],
@@ -497,6 +498,93 @@ def py_sessionSendClosing(opcode):
     return seen[0]
 
 
+def py_sessionSendCompressedFrame(opcode, z):
+    """the Frame object `send_compressed` constructs, seen where it is turned into bytes"""
+    import lomond.session as S
+    ws, seen = real_ws(), []
+    s = real_session(ws, False, [])
+
+    class Spy(S.Frame):
+        __slots__ = []
+
+        def to_bytes(self):
+            seen.append(self)
+            return b''
+    saved = S.Frame
+    S.Frame = Spy
+    try:
+        s.send_compressed(opcode, b'plain text', lambda data: z)
+    finally:
+        S.Frame = saved
+    f, = seen
+    return (f.opcode, bytes(f.payload), f.fin, f.rsv1, f.rsv2, f.rsv3, f.mask, Opt(f.masking_key))
+
+
+def py_frameToBytes(opcode, payload, fin, rsv1, rsv2, rsv3, mask, masking_key):
+    """the arguments `Frame.build` is entered with from `to_bytes` (bound by build's own signature)"""
+    import inspect
+    from lomond.frame import Frame
+    orig = Frame.__dict__['build']
+    sig = inspect.signature(orig.__func__)
+    seen = []
+
+    def spy(cls, *a, **kw):
+        b = sig.bind(cls, *a, **kw)
+        b.apply_defaults()
+        seen.append(b.arguments)
+        return b''
+    Frame.build = classmethod(spy)
+    try:
+        Frame(opcode, payload=payload, fin=fin, rsv1=rsv1, rsv2=rsv2, rsv3=rsv3, mask=mask, masking_key=masking_key).to_bytes()
+    finally:
+        Frame.build = orig
+    a, = seen
+    return (a['opcode'], bytes(a['payload']), a['fin'], a['rsv1'], a['rsv2'], a['rsv3'], a['mask'], Opt(a['masking_key']))
+
+
+def py_frameMakeMaskingKey(urandom):
+    """`make_masking_key()` as frame.py sees it: a functools.partial over os.urandom, applied to the table"""
+    import os
+    import lomond.frame as F
+    mk = F.make_masking_key
+    if mk.func is not os.urandom:
+        raise AssertionError('make_masking_key is not a partial of os.urandom')
+    return urandom[bytes(mk.args)] if not mk.keywords and all(0 <= x < 256 for x in mk.args) else None
+
+
+def py_frameBuildKey(masking_key, fresh):
+    """the key `Frame.build` uses, read back from the frame it returns (4-byte keys)"""
+    import lomond.frame as F
+    saved = F.make_masking_key
+    F.make_masking_key = lambda: fresh
+    try:
+        data = F.Frame.build(2, b'', masking_key=masking_key)
+    finally:
+        F.make_masking_key = saved
+    return bytes(data[2:])
+
+
+def py_wsSendJson(has_obj, has_kwargs):
+    import lomond.websocket as W
+    ws, dumped, sent = real_ws(), [], []
+    obj, kw = ['positional'], ({'k': 1} if has_kwargs else {})
+    ws.send_text = lambda text, *a, **k: sent.append((text, a, k))
+    saved = W.json
+    W.json = types.SimpleNamespace(dumps=lambda o: dumped.append(o) or 'TEXT')
+    def go():
+        if has_obj:
+            ws.send_json(obj, **kw)
+        else:
+            ws.send_json(**kw)
+        which = 0 if not dumped else 1 if dumped[0] is obj else 2 if dumped[0] == kw else 3
+        # send_text(<what json.dumps returned>) with no `compress` argument (its default applies)
+        return (which, sent == [('TEXT', (), {})])
+    try:
+        return attempt(go)
+    finally:
+        W.json = saved
+
+
 def py_wsOnDisconnect(has_session, closed, closing, explicit=False):
     ws, log, closes = real_ws(), [], []
     st = RecState(log, closed=closed, closing=closing,
@@ -807,6 +895,22 @@ def cases_for(name, rng, quick):
         return [(a, b, c, d) for a in B for b in B for c in B for d in B]
     if name == 'sessionSendClosing':
         return [(o,) for o in range(16)]
+    if name == 'sessionSendCompressedFrame':
+        return [(op, blob(rng, n)) for op in (1, 2, 0, 9, 15) for n in (0, 1, 5, 125, 126, 300)]
+    if name == 'frameToBytes':
+        out = []
+        for b in bits():
+            for op in (0, 1, 2, 8, 9, 10, 15):
+                for mask in (True, False):
+                    for key in (None, blob(rng, 4)):
+                        out.append((op, blob(rng, rng.choice([0, 3, 130])), b[0], b[1], b[2], b[3], mask, key))
+        return out
+    if name == 'frameMakeMaskingKey':
+        return [(Fn({bytes([n]): blob(rng, n) for n in (0, 1, 2, 3, 4, 5, 8, 16)}),) for _ in range(6 * k)]
+    if name == 'frameBuildKey':
+        return [(key, blob(rng, 4)) for key in [None] + [blob(rng, 4) for _ in range(6 * k)]]
+    if name == 'wsSendJson':
+        return [(a, b) for a in B for b in B]
     if name == 'wsOnDisconnect':
         return [(a, b, c) for a in B for b in B for c in B]
     if name == 'wsOnClose':
